@@ -3,7 +3,7 @@
 From Coq Require Import List ZArith NArith Bool.
 From WF Require Import Base.Bytes Sem.RangeSet Lang.Types Lang.Ast Lang.Context
      Sem.Compile Spec.Denote Spec.Typing Proofs.ValueProofs Proofs.IndexProofs Proofs.ExecProofs
-     Proofs.CallProofs Proofs.FullProofs.
+     Proofs.CallProofs Proofs.FullProofs Parse.Lex Parse.Parser Spec.Grammar Proofs.GrammarProofs Proofs.ParserClosed.
 Import ListNotations.
 
 (* For every scheme, every well-typed filter (documented typing rules: index
@@ -16,6 +16,21 @@ Theorem C02_exec_is_denote : forall (sch : scheme) (e : lexpr) (c : ctx),
   wt_filter sch e = true -> ctx_ok sch c = true -> fns_ok sch ->
   exists b, run_filter sch e c = Some b /\ denote_filter sch e c = Some b.
 Proof. exact filter_exec_is_denote. Qed.
+
+(* Text level: every text of the surface grammar (Spec/Grammar.v: left-hand sides with any sequence of [n],
+   ["key"], [*] accesses, comparisons over them, bare boolean arrays, element-wise not / and / xor / or on
+   boolean-array expressions, any( ) / all( ) over a parenthesised or negated chain, one iterating
+   comparison or a bare Array(Bool) value) parses to the AST the grammar assigns to it, whatever the layout
+   and the spellings, and executing that AST gives its denotation. *)
+Theorem C02_text_level : forall sch st text e c,
+  GFilter sch st text e -> ctx_ok sch c = true -> fns_ok sch ->
+  parse_filter sch st text = LOk e [] /\
+  exists b, run_filter sch e c = Some b /\ denote_filter sch e c = Some b.
+Proof.
+  intros sch st text e c HG Hc Hf. pose proof (filter_grammar_parses sch st text e HG) as Hp.
+  split; [exact Hp|]. apply filter_exec_is_denote; [|assumption|assumption].
+  pose proof (parse_filter_post sch st text) as P. rewrite Hp in P. exact (proj1 (proj1 P)).
+Qed.
 
 (* The explicit-stack MapEachIterator yields exactly the recursive row-major
    flattening, for every well-typed value and path (any depth and width). *)
